@@ -317,11 +317,11 @@ for k in (5, 0):
 M_PLAN = Machine('plan', 'tier_c/m_plan.cpp', [-1, 0, 0, 2, 2, 2], ['C', 'L', 'C', 'L', 'L', 'L'], unwind=14)
 for c in range(M_PLAN.count(0)):
     act = M_PLAN.active_set(c)
-    for shape in range(0, 9):
+    for shape in range(0, 10):
         for actor in act:
             if actor == 0: continue
             for action in (1, 2):
-                quick = actor == max(act) and shape in (0, 1, 2, 3, 5, 8)
+                quick = actor == max(act) and shape in (0, 1, 2, 3, 5, 8, 9)
                 job(id='C.plan.c%d.shape%d.a%d.%s' % (c, shape, actor, 'succeed' if action == 1 else 'fail'), tu=M_PLAN.tu, entry='step_plan', key=[c, shape, actor, action], props=['C06', 'C01', 'C03', 'C11'],
                     tier='quick' if quick else 'thorough', unwind=14, objbits=12, timeout=900,
                     carriers=[r'FullControlT<.*>::updatePlan', r'C_<.*>::deepUpdatePlans', r'FullControlBaseT<.*>::succeed', r'FullControlBaseT<.*>::fail', r'PlanDataT<.*>::clearStatuses'],
